@@ -2,6 +2,7 @@ package dbft
 
 import (
 	"fmt"
+	"math"
 	"slices"
 	"sync"
 	"time"
@@ -153,7 +154,7 @@ func (d *DBFT[H]) initializeConsensus(view byte, ts uint64) {
 			timeout = d.timePerBlock
 		}
 	} else {
-		timeout = d.timePerBlock << (d.ViewNumber + 1)
+		timeout = d.viewTimeout(d.ViewNumber)
 	}
 	if d.lastBlockIndex+1 == d.BlockIndex && !d.lastBlockTime.IsZero() {
 		var ts = d.Timer.Now()
@@ -755,6 +756,16 @@ func (d *DBFT[H]) changeTimer(delay time.Duration) {
 		zap.Int("v", int(d.ViewNumber)),
 		zap.Duration("delay", delay))
 	d.Timer.Reset(d.BlockIndex, d.ViewNumber, delay)
+}
+
+// viewTimeout returns the timeout for the given view: timePerBlock << (view+1),
+// saturated at the maximum duration instead of overflowing for high views.
+func (d *DBFT[H]) viewTimeout(view byte) time.Duration {
+	shift := uint(view) + 1
+	if t := d.timePerBlock << shift; shift < 63 && t>>shift == d.timePerBlock {
+		return t
+	}
+	return math.MaxInt64
 }
 
 func (d *DBFT[H]) extendTimer(count int) {
